@@ -98,6 +98,16 @@ class Lib:
                 cls['sections'].append({'vis': vis, 'members': members})
             self.classes.append(cls)
             names.append(name)
+        if rng.random() < 0.6:
+            # a pure virtual function, and what derived classes do about it: override it exactly (concrete again), or declare a function that differs
+            # in constness only (hides it: the class stays abstract and no constructor wrapper may be emitted).  Nothing else uses these classes by value.
+            bc = rng.random() < 0.5
+            meth = lambda const, pure, virt: {'kind': 'method', 'name': 'pvm', 'ret': 'int', 'params': [], 'const': const, 'virtual': virt, 'pure': pure, 'comment': False}
+            base = '%sPVB' % self.p
+            self.classes.append({'name': base, 'bases': [], 'keyword': 'class', 'sections': [{'vis': '__published', 'members': [meth(bc, True, True)]}]})
+            for nm, const in (('%sPVO' % self.p, bc), ('%sPVH' % self.p, not bc)):
+                self.classes.append({'name': nm, 'bases': [{'name': base, 'access': 'public', 'virtual': False}], 'keyword': rng.choice(['class', 'struct']),
+                                     'sections': [{'vis': '__published', 'members': [meth(const, False, rng.random() < 0.3)]}]})
         for k in range(rng.randrange(0, 3)):
             self.enums.append({'name': '%sGE%d' % (self.p, k), 'values': ['%sGE%d_V%d' % (self.p, k, v) for v in range(rng.randrange(1, 4))], 'scoped': rng.random() < 0.3})
         for k in range(rng.randrange(0, 4)):
@@ -105,7 +115,7 @@ class Lib:
                                'comment': rng.random() < 0.4})
 
     def class_names(self):
-        return [c['name'] for c in self.classes]
+        return [c['name'] for c in self.classes if not c['name'].endswith(('PVB', 'PVO', 'PVH'))]       # (the abstract trio is never used by value elsewhere)
 
     @staticmethod
     def sig(m):
@@ -140,7 +150,7 @@ class Lib:
                         if m['comment']:
                             out.append('  // doc for %s::%s' % (c['name'], m['name']))
                         out.append('  %s%s%s %s%s%s;' % ('static ' if m['kind'] == 'static' else '', 'virtual ' if m['virtual'] else '', m['ret'], m['name'],
-                                                       self.sig(m), ' const' if m['const'] else ''))
+                                                       self.sig(m), (' const' if m['const'] else '') + (' = 0' if m.get('pure') else '')))
                     elif m['kind'] == 'field':
                         out.append('  %s;' % m['decl'])
                     elif m['kind'] == 'ctor':
